@@ -32,4 +32,104 @@ def headerSlices : List (Nat × Nat) := [(0, 2), (2, 10), (10, 20), (20, 22), (2
 def headerFields : List (Nat × Nat) := [(2, 2), (8, 8), (10, 10), (2, 2), (12, 12), (12, 12), (6, 6)]
 def headerDateFormat : String := "%m%d%y%H%M"
 def headerNameLimit : Nat := 80
+/-- ctab.py `V2000_COMPATIBILITY_LINE` -/
+def compatLine : String := "  0  0  0  0  0  0  0  0  0  0999 V3000"
+/-- V2000 counts line f-string: (lit|fmt, text|spec, kind of the formatted value) -/
+def countsLineShape : List (String × String × String) := [("fmt", ">3d", "value"), ("fmt", ">3d", "value"), ("lit", "  0     0  0  0  0  0  0  1 V2000", "")]
+/-- V2000 atom line f-string -/
+def atomLineShape : List (String × String × String) := [("fmt", ">10.4f", "value"), ("fmt", ">10.4f", "value"), ("fmt", ">10.4f", "value"), ("lit", " ", ""), ("fmt", "3", "call:capitalize"), ("fmt", ">2", "const:0"), ("fmt", ">3d", "dictget-default:0"), ("fmt", ">3d", "const:0"), ("fmt", ">3d", "const:0"), ("fmt", ">3d", "const:0"), ("fmt", ">3d", "const:0"), ("fmt", ">3d", "const:0"), ("fmt", ">3d", "const:0"), ("fmt", ">3d", "const:0"), ("fmt", ">3d", "const:0"), ("fmt", ">3d", "const:0"), ("fmt", ">3d", "const:0")]
+/-- V2000 bond line f-string -/
+def bondLineShape : List (String × String × String) := [("fmt", ">3d", "plus:1"), ("fmt", ">3d", "plus:1"), ("fmt", ">3d", "value"), ("fmt", ">3d", "const:0"), ("fmt", ">3d", "const:0"), ("fmt", ">3d", "const:0"), ("fmt", ">3d", "const:0")]
+/-- `M  CHG` line head f-string -/
+def chargeHeadShape : List (String × String × String) := [("lit", "M  CHG", ""), ("fmt", ">3d", "call:len")]
+/-- one `M  CHG` entry f-string -/
+def chargeEntryShape : List (String × String × String) := [("lit", " ", ""), ("fmt", ">3d", "plus:1"), ("lit", " ", ""), ("fmt", ">3d", "value")]
+/-- order of the line groups returned by the V2000 writer -/
+def v2000LineOrder : List String := ["name:counts_line", "name:atom_lines", "name:bond_lines", "name:charge_lines", "lit:M  END"]
+/-- V3000 counts line f-string -/
+def v3000CountsShape : List (String × String × String) := [("lit", "COUNTS ", ""), ("fmt", "", "value"), ("lit", " ", ""), ("fmt", "", "value"), ("lit", " 0 0 0", "")]
+/-- V3000 atom line f-string -/
+def v3000AtomShape : List (String × String × String) := [("fmt", "", "plus:1"), ("lit", " ", ""), ("fmt", "", "call:_quote"), ("lit", " ", ""), ("fmt", ".4f", "value"), ("lit", " ", ""), ("fmt", ".4f", "value"), ("lit", " ", ""), ("fmt", ".4f", "value"), ("lit", " 0 ", ""), ("fmt", "", "call:_to_property")]
+/-- V3000 bond line f-string -/
+def v3000BondShape : List (String × String × String) := [("fmt", "", "plus:1"), ("lit", " ", ""), ("fmt", "", "value"), ("lit", " ", ""), ("fmt", "", "plus:1"), ("lit", " ", ""), ("fmt", "", "plus:1")]
+/-- V3000 block skeleton -/
+def v3000Skeleton : List String := ["lit:BEGIN CTAB", "name:counts_line", "lit:BEGIN ATOM", "name:atom_lines", "lit:END ATOM", "lit:BEGIN BOND", "name:bond_lines", "lit:END BOND", "lit:END CTAB"]
+/-- prefix of every V3000 line -/
+def v30Prefix : String := "M  V30 "
+/-- what the V3000 writer returns -/
+def v3000Return : List String := ["name:V2000_COMPATIBILITY_LINE", "name:lines", "lit:M  END"]
+/-- `_to_property`: compare ops / constants and the f-string -/
+def toPropertyShape : List String := ["Eq:0", "CHG={}", "''"]
+/-- `_quote`: connective, tests (operator:constant) and the quoted form -/
+def quoteShape : List String := ["Or", "In:' '", "Eq:0", "\"{}\""]
+/-- `startswith(...)` literals of the V2000 reader -/
+def r2StartsWith : List String := ["M  CHG"]
+/-- `line[k:]` of the V2000 reader (`M  CHGnn8` prefix) -/
+def r2OpenSlices : List Nat := [9]
+/-- `startswith(...)` literals of the V3000 reader -/
+def r3StartsWith : List String := ["M  V30"]
+/-- `line[k:]` of the V3000 reader -/
+def r3OpenSlices : List Nat := [6]
+/-- `_get_block_v3000`: startswith patterns in source order -/
+def blockMarkers : List String := ["BEGIN {}", "END {}"]
+/-- blocks the V3000 reader asks for, in order -/
+def blocksRead : List String := ["ATOM", "BOND"]
+/-- `columns[...]` subscripts of the V3000 reader in source order -/
+def r3Columns : List String := ["0", "1", "2:5", "6:", "1", "2", "3"]
+/-- string constants compared / looked up by the V3000 reader -/
+def r3Strings : List String := ["\"", "'", "CHG", "R#"]
+/-- `create_property_dict_v3000`: split separator -/
+def propSplit : List String := ["="]
+/-- `x - k` constants in the readers (1-based file indices) -/
+def readerMinus : List Int := [1]
+/-- `x + k` constants in the writers -/
+def writerPlus : List Int := [1]
+/-- version strings matched by the dispatchers (`case "…"`) -/
+def versionCases : List String := ["V2000", "V3000", "", "<capture>", "None", "V2000", "V3000", "<capture>"]
+/-- V2000 writer: the element width guard `len(element) <op> k` -/
+def elemGuard : String × Nat := ("Gt", 3)
+/-- V2000 writer: coordinate guard < element guard < atom lines < default-bond lookup (source order) -/
+def v2000GuardOrder : Bool := true
+/-- exception classes raised, per function, in source order -/
+def raisesTable : List (String × List String) := [("write_structure_to_ctab", ["TypeError", "BadStructureError", "BadStructureError", "ValueError", "ValueError"]), ("_write_structure_to_ctab_v2000", ["BadStructureError", "BadStructureError"]), ("_write_structure_to_ctab_v3000", ["BadStructureError"]), ("read_structure_from_ctab", ["InvalidFileError", "InvalidFileError"]), ("_read_structure_from_ctab_v3000", ["InvalidFileError", "NotImplementedError"]), ("_get_block_v3000", ["InvalidFileError"]), ("Key.__post_init__", ["ValueError", "ValueError", "ValueError", "ValueError", "ValueError"]), ("Key.deserialize", ["DeserializationError", "DeserializationError"]), ("Metadata.deserialize", ["DeserializationError"]), ("_check_metadata_value", ["ValueError", "ValueError", "ValueError", "ValueError"]), ("_add_key_value_pair", ["DeserializationError"]), ("SDRecord.get_structure", ["InvalidFileError"]), ("SDFile.serialize", ["SerializationError", "SerializationError"]), ("SDFile.__getitem__", ["DeserializationError"]), ("SDFile.__setitem__", ["TypeError"]), ("SDFile.record", ["ValueError", "ValueError"]), ("Header.serialize", ["ValueError", "ValueError"]), ("MOLFile.get_structure", ["InvalidFileError"]), ("to_mol", ["BadStructureError", "BadStructureError"]), ("from_mol", ["BadStructureError"])]
+/-- default values of the public entry points (argument, default as source text) -/
+def defaultsTable : List (String × List (String × String)) := [("write_structure_to_ctab", [("atoms", "<required>"), ("default_bond_type", "BondType.ANY"), ("version", "None")]), ("MOLFile.set_structure", [("atoms", "<required>"), ("default_bond_type", "BondType.ANY"), ("version", "None")]), ("SDRecord.set_structure", [("atoms", "<required>"), ("default_bond_type", "BondType.ANY"), ("version", "None")]), ("SDRecord.__init__", [("header", "None"), ("ctab", "None"), ("metadata", "None")]), ("SDFile.__init__", [("records", "None")]), ("Metadata.__init__", [("metadata", "None")]), ("convert.get_structure", [("mol_file", "<required>"), ("record_name", "None")]), ("convert.set_structure", [("mol_file", "<required>"), ("atoms", "<required>"), ("default_bond_type", "BondType.ANY"), ("version", "None"), ("record_name", "None")]), ("to_mol", [("atoms", "<required>"), ("kekulize", "False"), ("use_dative_bonds", "False"), ("include_extra_annotations", "()"), ("explicit_hydrogen", "None")]), ("from_mol", [("mol", "<required>"), ("conformer_id", "None"), ("add_hydrogen", "None")]), ("Header", [("mol_name", "''"), ("initials", "''"), ("program", "''"), ("time", "None"), ("dimensions", "''"), ("scaling_factors", "''"), ("energy", "''"), ("registry_number", "''"), ("comments", "''")]), ("Metadata.Key", [("number", "None"), ("name", "None"), ("registry_internal", "None"), ("registry_external", "None")])]
+/-- sdf.py `_N_HEADER`, mol.py `N_HEADER` -/
+def nHeader : Nat × Nat := (3, 3)
+/-- sdf.py `_RECORD_DELIMITER` -/
+def recordDelimiter : String := "$$$$"
+/-- `Metadata.Key._NAME_INPUT_REGEX` -/
+def keyNameRegex : String := "^[a-zA-Z0-9][\\w.]*\\Z"
+/-- `Metadata.Key._COMPONENT_REGEX` in dict order -/
+def keyComponentRegex : List (String × String) := [("number", "^DT(\\d+)$"), ("name", "^<([a-zA-Z0-9][\\w.]*)>$"), ("registry_internal", "^(\\d+)$"), ("registry_external", "^\\(([\\w.-]*)\\)$")]
+/-- regex applied to `registry_external` in `__post_init__` -/
+def keyExtRegex : List String := ["^[\\w.-]*\\Z"]
+/-- `__post_init__`: compare ops against constants (`< 0` …) -/
+def keyNumberGuards : List String := ["Lt:0", "Lt:0"]
+/-- `Key.serialize`: the pieces appended, in order -/
+def keySerializePieces : List String := ["init:> ", "DT{number} ", "<{name}> ", "{registry_internal} ", "({registry_external}) "]
+/-- `_check_metadata_value`: startswith / split literals, then the tests (operator:constant; `call:` = a method result is tested) -/
+def valueChecks : List String := [">", "\n", "Eq:0", "Eq:0", "call:startswith", "NotEq:/splitlines"]
+/-- `Metadata.deserialize`: startswith literal and the join separator -/
+def mdDeserializeStrings : List String := [">", "\n"]
+/-- `_get_ctab_stop`: number of range arguments (2 = forward scan), its start, the startswith literal, `return i + k` -/
+def ctabStopShape : List String := ["args:2", "start:_N_HEADER", "M  END", "ret:+1"]
+/-- mol.py `_get_ctab_lines`: where the scan for `M  END` starts, the startswith literal -/
+def ctabLinesShape : List String := ["enumerate-from:N_HEADER/start=N_HEADER", "M  END"]
+/-- `SDFile.deserialize`: how a delimiter line is recognised -/
+def delimiterTest : List String := ["startswith:_RECORD_DELIMITER"]
+/-- `SDFile.serialize`: the delimiter-line check -/
+def delimiterCheck : List String := ["startswith:_RECORD_DELIMITER"]
+/-- convert.py `_get_or_create_record`: the invented record name, and the membership guard before a record is created -/
+def convertShape : List String := ["Molecule", "NotIn"]
+/-- header.py: (Header field, start, stop, stripped) read from the second line (`time`: via strptime) -/
+def headerFieldSlices : List (String × Nat × Nat × Bool) := [("initials", 0, 2, true), ("program", 2, 10, true), ("time", 10, 20, false), ("dimensions", 20, 22, true), ("scaling_factors", 22, 34, true), ("energy", 34, 46, true), ("registry_number", 46, 52, true)]
+/-- header.py: the Header fields given positionally to `Header(...)` by deserialize = the dataclass field order -/
+def headerCtorOrder : List String := ["mol_name", "initials", "program", "time", "dimensions", "scaling_factors", "energy", "registry_number", "comments"]
+/-- header.py: fields written into the second line, in order -/
+def headerWriteOrder : List String := ["initials", "program", "time", "dimensions", "scaling_factors", "energy", "registry_number"]
+/-- header.py: indices of the lines the three parts are read from -/
+def headerLineIndices : List Nat := [0, 1, 2]
+/-- to_mol: keywords of `mol.AddConformer(...)` -/
+def addConformerKeywords : List String := ["assignId=True"]
 end BiotiteModel.Gen.C18
